@@ -41,5 +41,6 @@ func createLockFile(name string, perm os.FileMode) (LockFile, bool, error) {
 		}
 		// Locked a file that is not linked at the path anymore, try again.
 		_ = f.Close()
+		verifYield("lock:retry", name)
 	}
 }
